@@ -264,6 +264,16 @@ def run_shard(seed, tier, shard, nshards):
     rng = random.Random('%s-%d-%d-%s' % (PID, seed, shard, tier))
     out = {'evaluations': 0, 'keys': [], 'violations': [], 'samples': [], 'counters': {},
            'sets': {}, 'inconclusive': []}
+    if shard == 0:
+        # a history found by the thorough tier (seed 91): a collector without a loop is flushed from the sink of a pipeline that
+        # runs on a loop, and a consumer of the collection (in that other pipeline) hands back an awaitable
+        import json
+        import os
+        with open(os.path.join(os.path.dirname(os.path.abspath(__file__)), 'regress', 'C05-cross-pipeline-flush.json')) as fh:
+            case = json.load(fh)['case']
+        res, viols = check_case(case, out['counters'], out['sets'])
+        out['evaluations'] += 1
+        out['violations'].extend(viols or [])
     for k in range(12 if tier == 'thorough' else 3):
         case = {'flush_thread': True, 'n': rng.choice([1, 2, 3]), 'rounds': rng.choice([1, 2, 3]), 'before': rng.choice([None, 'map']),
                 'between': rng.choice([None, None, 'map', 'buffer', 'delay']), 'sink': rng.choice(['sync', 'coro', 'coro']),
